@@ -25,7 +25,7 @@ META = dict(
                "giving the broker its backend / middlewares / formatter / tasks only after the Receiver was constructed, a fifth of all "
                "cases putting the broker OBJECT (a minimal AsyncBroker subclass, or one overriding startup / shutdown around super()) "
                "through its life cycle - startup / shutdown / startup before the first message, shutdown() while messages are being "
-               "executed / sent, between two sends on one kicker, middlewares with startup / shutdown hooks of their own -, a tenth of the sends failing with one of the exception shapes real "
+               "executed / sent, between two sends on one kicker, middlewares with startup / shutdown hooks of their own -, a seventh of the send cases being sequential scenarios through a SHARED task of taskiq.async_shared_broker (1-3 real brokers; kickers obtained from the task before / after default_broker(B), kept and used again, re-pointed with with_broker, task.kiq(); the default broker set, changed and unset between sends: a send goes through the pre_send / post_send hooks of the broker its kicker is bound to, a kicker bound to the shared broker itself cannot send: SendTaskError, no broker reached), a tenth of the sends failing with one of the exception shapes real "
                "clients raise from kick / dumps (errno-style OSError family, KeyError(int), no / bytes / tuple / None args, non-ASCII text, "
                "UnicodeEncodeError, exception groups, classes with raising __str__ / __eq__, falsy, unhashable, with cause chains), sends "
                "made while the caller handles another exception, and a seventh of the receive cases holding the SimpleRetryMiddleware "
